@@ -353,6 +353,8 @@ def cfg_summary(spec: dict) -> dict:
     return {"levels": eng, "nlevels": nl, "limit": level_limit_of(spec), "hib": int(bool(spec.get("hibernation", False))),
             "gsc": g["kind"], "gscn": int(g.get("n", 0)), "gscw": weights,
             "max": int(bool(spec.get("maximize", False))), "sprout": spec["sprout"]["kind"],
+            "generator": {"simple": "best", "nbc": "nbc", "nbc_local": "nbc_local", "scripted": "scripted",
+                          "composed": spec["sprout"].get("generator", "best")}[spec["sprout"]["kind"]],
             "haslocal": int(any(l["engine"] == "LOCAL" for l in spec["levels"])),
             "cutoff": int(any(w[0] == "cutoff" for w in spec.get("wrappers", []))),
             "wcount": sum(1 for w in spec.get("wrappers", []) if w[0] in ("count", "cutoff", "precision")),
